@@ -12,7 +12,7 @@ From Coq Require Import String.
 From Emmet Require Import lib.Base lib.StrLit model.MarkupTokenizer model.MarkupParser model.MarkupConvert
      model.MarkupResolve model.OutStream model.FormatHtml proofs.AttrProofs proofs.AttrParseProofs
      proofs.ParserSpine proofs.ParserGroups proofs.TextSpec proofs.AttrText proofs.AttrTextParse
-     proofs.AttrTextConvert proofs.AttrTextFlat.
+     proofs.AttrTextConvert proofs.AttrTextFlat proofs.TextProofs model.MarkupExpand proofs.AttrTextExpand.
 
 (* merging: for ALL attribute lists the code's loop (dictionary lookup + in-place update) computes
    [merge_spec]: every name once at its first position; class values joined by one space in written
@@ -183,6 +183,63 @@ Theorem C03_statement_attributes_text :
               (preL 0 els) (edenote 0 xs).
 Proof. exact statement_attributes_text. Qed.
 Print Assumptions C03_statement_attributes_text.
+
+(* (4) the WHOLE pipeline on one element.  markup.parse -- tokenize, parse, convert, snippet resolution,
+   transform -- of the text of an element whose name is neither a snippet nor `lorem...` yields the one
+   node carrying [merge_spec] of the written mentions ... *)
+Theorem C03_element_markup_parse :
+  forall (cfg : mconfig) (e : selem),
+    selem_ok e -> jsx_ok (mc_jsx cfg) e -> mc_text cfg = WNone ->
+    assoc_str (se_name e) (mc_snippets cfg) = None -> match_lorem (se_name e) = LNo ->
+    markup_parse cfg (elem_text e) =
+      Ok [ANode (Some (se_name e)) None None
+                (match written_mentions e with [] => None | m => Some (merge_spec (mc_reverse_attrs cfg) [] m) end)
+                [] false].
+Proof. exact markup_parse_elem. Qed.
+Print Assumptions C03_element_markup_parse.
+
+(* ... and expand() writes it as  <name attr...></name> : the attributes are those of [merge_spec] on the
+   written mentions (first mention fixes the position, class values joined, last/first value wins), each
+   written by the decision table [attr_out_spec] of C03_attr_out_table (quotes / braces, boolean
+   expansion or compact form, implied dropped, tabstop for an empty value, names through
+   markup.attributes and attributeCase).  For ALL elements of the grammar, all configurations with:
+   an HTML-family syntax (html, xml, xsl, jsx, vue ...: the haml / slim / pug formatters are C15), no
+   comment filter, no leaf formatting for this element, and values free of line breaks (a line break
+   inside a value is re-indented by the output stream: C04_text_not_reparsed / C12). *)
+Theorem C03_expand_element_text :
+  forall (x : xconfig) (e : selem),
+    let m := xc_m x in
+    let c := xc_o x in
+    selem_ok e -> jsx_ok (mc_jsx m) e -> mc_text m = WNone ->
+    assoc_str (se_name e) (mc_snippets m) = None -> match_lorem (se_name e) = LNo ->
+    html_family (mc_syntax m) -> oc_comment_enabled c = false ->
+    oc_format_leaf c = false -> mem_str (se_name e) (oc_format_force c) = false ->
+    let attrs := merge_spec (mc_reverse_attrs m) [] (written_mentions e) in
+    Forall (fun a => form_nl_free (attr_out_spec c a)) attrs ->
+    expand_markup_str x (elem_text e) =
+      Ok (c_lt :: tag_name c (se_name e) ++ attrs_text_out c attrs
+          ++ [c_gt] ++ [c_lt; c_slash] ++ tag_name c (se_name e) ++ [c_gt]).
+Proof. exact expand_element_text. Qed.
+Print Assumptions C03_expand_element_text.
+
+(* non-vacuity of (4): a.x[b=f(1) c. !d class='y z']#i  expands to  <a class="x y z" b="f(1)" c="c" id="i"></a> *)
+Example C03_expand_nonvacuous :
+  let x := mkX (mkMConfig (S "html") [] [] WNone None None false None [] false false)
+               (mkOconfig (mkOfmt [] [] []) [] [] (S "double") true false [] [] 0 false [] (S "html") [] false [] [] []
+                          false None None) in
+  let e := mkSElem (S "a")
+             [PClass (S "x");
+              PSet [mkSAttr false (S "b") false (SUnq (S "f(1)")); mkSAttr false (S "c") true SNone;
+                    mkSAttr true (S "d") false SNone; mkSAttr false (S "class") false (SQuo true (S "y z"))];
+              PId (S "i")] in
+  selem_ok e /\ html_family (mc_syntax (xc_m x)) /\
+  Forall (fun a => form_nl_free (attr_out_spec (xc_o x) a)) (merge_spec false [] (written_mentions e)) /\
+  elem_text e = S "a.x[b=f(1) c. !d class='y z']#i" /\
+  expand_markup_str x (elem_text e) = Ok (S "<a class=""x y z"" b=""f(1)"" c=""c"" id=""i""></a>").
+Proof.
+  cbv zeta. split; [split; [split; [discriminate|repeat constructor]|repeat constructor; try discriminate]|].
+  split; [repeat split|]. split; [vm_compute; repeat constructor|]. split; vm_compute; reflexivity.
+Qed.
 
 (* non-vacuity of the character-level theorems: a#x.y[!p. q= r=a*3/4>.# f=g(1) s='a \' ] (c)' t={ x{y} }].z *)
 Example C03_text_nonvacuous :
